@@ -27,6 +27,8 @@ def gen_cases(rng, tier, driver, corr, stats, families):
             lens = [(0, 0), (0, 1), (1, rate - 1), (rate, rate), (rate + 1, 2 * rate + 1), (5, 3 * rate), (33, 64)]
             if tier == "thorough":
                 lens += [(a, p) for a in (0, rate - 1, 2 * rate) for p in (rate + 3, 200, 1000)]
+            elif fam != "AE":
+                lens = [(0, 0), (1, rate + 1), (5, 3 * rate)]      # the extracted ISAP model costs ~300 permutations per packet
             for (alen, plen) in lens:
                 base.append((fam, v, gen.patterned(rng, klen), gen.patterned(rng, 16), rnd(rng, alen), rnd(rng, plen)))
     cts = model_encrypt(driver, base)
@@ -50,15 +52,17 @@ def gen_cases(rng, tier, driver, corr, stats, families):
                 extra = (" ctor BA" if rng.random() < 0.5 else " setkey PTR") if e == "AEC" else ""
                 corr.one("%s %s DEC %s %s %s %s%s" % (e, v, hx(k2), hx(n2), hx(ad2), hx(ct2), extra), "%s-%s-DEC-%s" % (e, v, kind))
 
+        thin = 1 if (tier == "thorough" or fam != "ISAP") else 4   # quick tier: every 4th nonce/key bit for ISAP (rotating start)
+        off = rng.randrange(thin)
         emit("valid", k, n, ad, ct)
         for bit in range(128):                               # every tag bit
             emit("tagbit", k, n, ad, ct[:-16] + flip(ct[-16:], bit))
         body = len(ct) - 16
         for bit in (range(body * 8) if body <= 64 else [8 * i + rng.randrange(8) for i in range(body)]):
             emit("ctbit", k, n, ad, flip(ct, bit))
-        for bit in range(128):
+        for bit in range(off, 128, thin):
             emit("noncebit", k, flip(n, bit), ad, ct)
-        for bit in range(len(k) * 8):
+        for bit in range(off, len(k) * 8, thin):
             emit("keybit", flip(k, bit), n, ad, ct)
         for bit in (range(len(ad) * 8) if len(ad) <= 32 else [8 * i + rng.randrange(8) for i in range(len(ad))]):
             emit("adbit", k, n, flip(ad, bit), ct)
